@@ -1,0 +1,132 @@
+//go:build verif
+// +build verif
+
+package storage
+
+import (
+	"sync"
+
+	"github.com/marekgalovic/anndb/index"
+	pb "github.com/marekgalovic/anndb/protobuf"
+	"github.com/marekgalovic/anndb/utils"
+
+	"github.com/golang/protobuf/proto"
+	uuid "github.com/satori/go.uuid"
+	log "github.com/sirupsen/logrus"
+)
+
+// VerifPartitionSM is a partition's replicated state machine (process /
+// snapshot / processSnapshot over a real index) without a raft group, for the
+// verification harness.
+type VerifPartitionSM struct {
+	p *partition
+}
+
+func VerifNewPartitionSM(dimension uint32, space pb.Space) *VerifPartitionSM {
+	meta := &pb.Dataset{Dimension: dimension, Space: space, PartitionCount: 1, ReplicationFactor: 1}
+	id := uuid.NewV4()
+	d := &Dataset{id: uuid.NewV4(), meta: meta, partitionsMu: &sync.RWMutex{}}
+	p := &partition{
+		id:          id,
+		meta:        &pb.Partition{Id: id.Bytes()},
+		dataset:     d,
+		index:       newIndexFromDatasetProto(meta),
+		raftMu:      &sync.RWMutex{},
+		notificator: utils.NewNotificator(),
+		log:         log.WithFields(log.Fields{"partition_id": id}),
+	}
+	return &VerifPartitionSM{p: p}
+}
+
+// Apply feeds one committed log entry to the state machine exactly as the raft
+// ready-loop would and reports the outcome the apply code delivered to the
+// entry's notification id (delivered=false when nothing was delivered).
+func (this *VerifPartitionSM) Apply(data []byte) (outcome interface{}, delivered bool, err error) {
+	var change pb.PartitionChange
+	var c <-chan interface{}
+	var nid uuid.UUID
+	if uerr := proto.Unmarshal(data, &change); uerr == nil {
+		if id, ierr := uuid.FromBytes(change.GetNotificationId()); ierr == nil {
+			nid = id
+			c = this.p.notificator.VerifCreateWithId(id, 1)
+			defer this.p.notificator.Remove(nid)
+		}
+	}
+	err = this.p.process(data)
+	if c != nil {
+		select {
+		case outcome = <-c:
+			delivered = true
+		default:
+		}
+	}
+	return
+}
+
+func (this *VerifPartitionSM) Snapshot() ([]byte, error) { return this.p.snapshot() }
+func (this *VerifPartitionSM) Restore(data []byte) error { return this.p.processSnapshot(data) }
+func (this *VerifPartitionSM) Index() *index.Hnsw        { return this.p.index }
+func (this *VerifPartitionSM) SetIndex(idx *index.Hnsw)  { this.p.index = idx }
+
+// VerifBatchResult converts the batch outcome type to a plain map.
+func VerifBatchResult(outcome interface{}) (map[uuid.UUID]error, bool) {
+	r, ok := outcome.(partitionBatchResult)
+	return map[uuid.UUID]error(r), ok
+}
+
+// VerifDatasets lists the datasets known to this node.
+func (this *DatasetManager) VerifDatasets() map[uuid.UUID]*Dataset {
+	this.datasetsMu.RLock()
+	defer this.datasetsMu.RUnlock()
+	out := make(map[uuid.UUID]*Dataset, len(this.datasets))
+	for id, d := range this.datasets {
+		out[id] = d
+	}
+	return out
+}
+
+// VerifPartitionIds returns the dataset's partition ids in routing order.
+func (this *Dataset) VerifPartitionIds() []uuid.UUID {
+	this.partitionsMu.RLock()
+	defer this.partitionsMu.RUnlock()
+	out := make([]uuid.UUID, len(this.partitions))
+	for i, p := range this.partitions {
+		out[i] = p.id
+	}
+	return out
+}
+
+// VerifPartitionNodeIds returns the node ids the partition is assigned to.
+func (this *Dataset) VerifPartitionNodeIds(pid uuid.UUID) []uint64 {
+	p, err := this.getPartition(pid)
+	if err != nil {
+		return nil
+	}
+	return append([]uint64(nil), p.nodeIds()...)
+}
+
+// VerifPartitionIndex returns the local index object of a partition and
+// whether a raft group is loaded for it on this node.
+func (this *Dataset) VerifPartitionIndex(pid uuid.UUID) (*index.Hnsw, bool) {
+	p, err := this.getPartition(pid)
+	if err != nil {
+		return nil, false
+	}
+	p.raftMu.RLock()
+	defer p.raftMu.RUnlock()
+	return p.index, p.raft != nil
+}
+
+// VerifPartitionRaft returns the partition's raft group when loaded.
+func (this *Dataset) VerifPartitionRaft(pid uuid.UUID) interface{} {
+	p, err := this.getPartition(pid)
+	if err != nil {
+		return nil
+	}
+	p.raftMu.RLock()
+	defer p.raftMu.RUnlock()
+	if p.raft == nil {
+		return nil
+	}
+	return p.raft
+}
